@@ -180,6 +180,30 @@ def empty_engine_leg(ctx, fl):
                                   note=f"'{text}' names variables the engine does not have (yet) and was accepted")
 
 
+def borrowed_term_leg(ctx, fl):
+    """a term name is looked up in the proposition's OWN variable: a name that only another variable of the same rule has is an
+    unknown name there, before or after that other variable was mentioned, in antecedents and in consequents"""
+    tri = lambda n: fl.Triangle(n, 0.0, 0.5, 1.0)
+    e = fl.Engine("own-terms", input_variables=[fl.InputVariable("a", minimum=0, maximum=1, terms=[tri("onlya"), tri("both")]), fl.InputVariable("b", minimum=0, maximum=1, terms=[tri("onlyb"), tri("both")])],
+                  output_variables=[fl.OutputVariable("y", minimum=0, maximum=1, terms=[tri("onlyy"), tri("both")], defuzzifier=fl.Centroid(10), aggregation=fl.Maximum()),
+                                    fl.OutputVariable("z", minimum=0, maximum=1, terms=[tri("onlyz"), tri("both")], defuzzifier=fl.Centroid(10), aggregation=fl.Maximum())],
+                  rule_blocks=[fl.RuleBlock("rb", conjunction=fl.Minimum(), disjunction=fl.Maximum(), implication=fl.Minimum(), activation=fl.General())])
+    bad = ["if a is onlya and b is onlya then y is both", "if b is onlyb and a is onlyb then y is both", "if a is onlyb and b is onlyb then y is both", "if a is onlya or b is very onlya then y is both",
+           "if a is both then y is onlyy and z is onlyy", "if a is both then z is onlyz and y is onlyz", "if a is both then y is onlya", "if y is onlyy and a is onlyy then z is both",
+           "if ( a is onlya and b is both ) or b is onlya then y is both"]
+    good = ["if a is onlya and b is onlyb then y is onlyy and z is onlyz", "if a is both and b is both then y is both and z is both", "if b is onlyb or a is onlya then z is onlyz"]
+    for text in bad + good:
+        ctx.count()
+        case = {"text": text, "engine": "every variable has one term of its own and one called `both`"}
+        kind, val = outcome(lambda: fl.Rule.create(text, e))
+        if kind == "internal":
+            ctx.violation(f"Rule.create/internal-{type(val).__name__}/borrowed-term", case, "success or a syntax, value or lookup error", f"{type(val).__name__}: {val}")
+        elif kind == "ok" and text in bad:
+            ctx.violation("Rule.create/accepted/unknown-name/term-of-another-variable", case, "rejected (the variable has no term of that name)", "accepted", note=f"'{text}' was accepted")
+        elif kind != "ok" and text in good:
+            ctx.extra["borrowed_term_good_rejected"] = ctx.extra.get("borrowed_term_good_rejected", 0) + 1      # rejecting is always allowed by the property
+
+
 def degenerate_leg(ctx, fl):
     """rule texts over an engine with legal but degenerate components - a variable without terms, reachable only through `any` -
     either are rejected cleanly or load into a rule that can be exported and evaluated, alone and inside Engine.process"""
@@ -215,6 +239,7 @@ def run(ctx: core.Ctx):
     lifecycle_leg(ctx, fl)
     degenerate_leg(ctx, fl)
     empty_engine_leg(ctx, fl)
+    borrowed_term_leg(ctx, fl)
     rng = random.Random(ctx.seed)
     la, lc = (4, 4) if ctx.quick else (5, 5)
     head = "SPECIFICATION Spec\n" + CONSTS + f"  LenA = {la}\n  LenC = {lc}\n  Emit = TRUE\n"
